@@ -57,9 +57,9 @@ def run(ctx):
     with ctx.rule('R17.2', 'activity: rx stamped after a read of n > 0 bytes, tx stamped on every successful write; each stamps its own timer', floor=6) as r:
         rows = P.table(ctx, 'io_loop::Inner::read_from_stream', ['self', 'stream', 'frame_buffer', 'handler'])
         site = ctx.site('io_loop::Inner::read_from_stream')
-        RD = '(0 < frame_buffer::FrameBuffer::read_from(frame_buffer, stream, |$c0| value:handler(self, $c0))?)'
-        pos = [x for x in rows if x.conds == [(RD, True)]]
-        zero = [x for x in rows if x.conds == [(RD, False)]]
+        RD = '(0 == frame_buffer::FrameBuffer::read_from(frame_buffer, stream, |$c0| value:handler(self, $c0))?)'  # `n > 0` on an unsigned n is `n != 0`
+        pos = [x for x in rows if x.conds == [(RD, False)]]
+        zero = [x for x in rows if x.conds == [(RD, True)]]
         r.check('rx:on-bytes', len(pos) == 1 and pos[0].effects[-1] == HT + 'HeartbeatTimers::record_rx_activity(self.heartbeats)', site, built=[x.row() for x in rows], why='any inbound traffic counts as liveness')
         r.check('rx:not-on-nothing', len(zero) == 1 and not [e for e in zero[0].effects if 'record_' in e], site)
         A.unique_callers(ctx, r, 'rx:only-caller', HT + 'HeartbeatTimers::record_rx_activity', ['io_loop::Inner::read_from_stream'])
